@@ -451,4 +451,10 @@ class BandwidthRateTracker:
         self, amt, time_at_consumption
     ):
         new_rate = self._calculate_rate(amt, time_at_consumption)
+        if self._current_rate == float('inf'):
+            # An infinite rate gets recorded when two consumptions carry the
+            # same timestamp. It says nothing about the earlier history and
+            # would never decay (any fraction of infinity is infinity), so
+            # every later request would be throttled forever.
+            return new_rate
         return self._alpha * new_rate + (1 - self._alpha) * self._current_rate
